@@ -68,8 +68,9 @@ RECURSIVE LinesOfEntry(_, _, _)
 LinesOfEntry(f, ls, i) == IF i > Len(ls) THEN <<>> ELSE <<<<f, ls[i]>>>> \o LinesOfEntry(f, ls, i + 1)
 RECURSIVE FlatLines(_, _)
 FlatLines(es, i) == IF i > Len(es) THEN <<>> ELSE LinesOfEntry(es[i][1], es[i][2], 1) \o FlatLines(es, i + 1)
-PartOf(F) == [p \in DOMAIN F |-> D!BagOfSeq(FlatLines(F[p], 1))]
-ReportOf(found) == [c \in {x \in SetOf(Cats) : DOMAIN found[x] # {}} |-> PartOf(found[c])]
+\* (an entry without lines is no finding, a pattern without findings has no section: Report.tla, Reported)
+PartOf(F) == [p \in {q \in DOMAIN F : FlatLines(F[q], 1) # <<>>} |-> D!BagOfSeq(FlatLines(F[p], 1))]
+ReportOf(found) == [c \in {x \in SetOf(Cats) : DOMAIN PartOf(found[x]) # {}} |-> PartOf(found[c])]
 
 File(kind, val) == [kind |-> kind, val |-> val]
 
